@@ -1,5 +1,5 @@
 """which contract modules exist, and per property: claimed level, assumptions, bounded stand-ins"""
-MODULES = ['contracts.c19_boxes', 'contracts.c01_membership']
+MODULES = ['contracts.c19_boxes', 'contracts.c01_membership', 'contracts.c04_bbox', 'contracts.c15_motions', 'contracts.c02_masks']
 
 A_PY = 'A-PY: CPython semantics of the modelled subset (ints exact, dict/list/str methods, left-to-right evaluation)'
 A_REAL = 'A-REAL: floats are treated as real numbers (no rounding, no overflow)'
@@ -18,4 +18,17 @@ PROPERTIES = {
     'C19': dict(level='proof', trusted=[A_PY, A_REAL, A_INT, 'astropy.io.fits.util._is_int(v) == isinstance(v, int) (assumed contract)',
                                         'numpy.floor/ceil are the mathematical floor/ceiling'],
                 assumptions=[A_PY, A_REAL, A_INT]),
+    'C04': dict(level='proof', trusted=[A_PY, A_REAL, A_TRIG, A_NUMPY, A_UNITS,
+                                        'lemma (not machine-checked): a polygon lies in the convex hull of its vertices, hence in any box containing them'],
+                assumptions=[A_PY, A_REAL, A_TRIG, A_NUMPY, A_UNITS,
+                             'minimality of polygon boxes is proved for 3..6 vertices (concrete spine), enclosure of vertices for any number']),
+    'C02': dict(level='proof', trusted=[A_PY, A_REAL, A_TRIG, A_NUMPY, A_UNITS,
+                                        'assumed contract of the compiled kernels *_overlap_grid (externals/geometry_kernels.py): element [j, i] is FRAC of the pixel [xmin+i*dx, ...] x [ymin+j*dy, ...]; FRAC(use_exact=0, n) is the fraction of the n x n regular sub-sample centres inside the shape, in {0, 1} for n = 1; rectangle/polygon kernels raise NotImplementedError for use_exact = 1 (Cython is not installed: the .so cannot be rebuilt, the .pyx text is not re-verified here)'],
+                assumptions=[A_PY, A_REAL, A_TRIG, A_NUMPY, A_UNITS, 'compiled kernels: assumed contract (see trusted_base)',
+                             'compound and annulus masks are proved against arbitrary operands obeying the base contract of PixelRegion.to_mask']),
+    'C15': dict(level='proof', trusted=[A_PY, A_REAL, A_TRIG, A_NUMPY, A_UNITS, 'copy.deepcopy returns a structurally equal, disjoint object graph',
+                                        'assumed kernel contract (as C02) for the mask part of the translation clause'],
+                assumptions=[A_PY, A_REAL, A_TRIG, A_NUMPY, A_UNITS,
+                             'polygon membership under rotation and polygon mask values under translation depend on the crossing-number kernel itself and are not proved (vertex positions, box translation and mask shape are)',
+                             'regular polygons and compounds: rotate is covered through their components']),
 }
